@@ -36,3 +36,4 @@ def run(prog, rep):
     _rfa.run_aligned(prog, rep)
     _ru.run_no_static_state(prog, rep)
     r_pair.run_dispatch_total(prog, rep)
+    r_flow.run_outpair(prog, rep)
